@@ -19,7 +19,7 @@ UNITS = ['cm', 'mm', 'in', 'pt', 'pc', 'px', 'em', 'ex', 'CM', 'Pt', '']
 
 def rand_spec(rng):
     fmt = '1IiAa'
-    other = '*-+.)(#>•●§bxYZ 0z&<"' + '\u0131\u0130\u212a\u017f\uff21\uff11'      # dotless i, dotted I, Kelvin sign, long s, full-width A and 1: not format characters
+    other = '*-+.)(#>•●§bxYZ 0z&<"' + '\u0131\u0130\u212a\u017f\uff21\uff11' + '\u0302\u0338\u093c\ufe0f'      # dotless i, dotted I, Kelvin sign, long s, full-width A and 1: not format characters
     k = rng.random()
     n = rng.randint(0, 3)
     pre = ''.join(rng.choice(other) for _ in range(n))
